@@ -35,6 +35,8 @@ pub struct TickView<'a> {
     pub return_address_stack: &'a [usize],
     pub go_sub_address_stack: &'a [usize],
     pub last_error_code: Option<i32>,
+    /// Address of the failing instruction while an error handler is running.
+    pub last_error_address: Option<usize>,
     pub context: &'a Context,
 }
 
@@ -58,6 +60,7 @@ impl<TStdlib: Stdlib, TStdIn: Input, TStdOut: Printer, TLpt1: Printer>
                         return_address_stack: &self.return_address_stack,
                         go_sub_address_stack: &self.go_sub_address_stack,
                         last_error_code: self.last_error_code,
+                        last_error_address: self.last_error_address,
                         context: &self.context,
                     };
                     f(&view)
